@@ -193,6 +193,41 @@ def scalar_writes(f):
     return out
 
 
+def _d0(ck, facts):
+    """the statement itself on small circuits: Circuit::to_graph_with_options interpreted in all three modes on both back ends, diagram map = circuit map"""
+    from .. import zxsem, minirust
+    ck.decided('D0 (evaluation, small scope) Circuit::to_graph_with_options, Gate::add_to_graph with every helper, local_ap_simp and the rules it applies, phase.rs, params.rs and both graph back ends interpreted from their HIR: for every '
+               'unitary gate kind on every tuple of distinct qubits of 1..3 wires (five phases for the parametrised kinds, parity-phase gadgets of every arity), every ordered pair of a two-qubit gate subset, compound gates next to '
+               'single-qubit gates, and ancilla initialisation / post-selection as the first / last operation of a wire, in all three translation modes (plain, simplify-while-building, post-selected CCZ gadgets), the linear map of the '
+               'diagram, scalar included and inputs / outputs in qubit order, equals the gate-by-gate matrix semantics of refs/gates.py (exact numbers in Q(e^{i pi/4}); the contraction shares no code with tensor.rs)')
+    plan = [('vec_graph::Graph', 1), ('hash_graph::Graph', 3)] if ck.tier == 'thorough' else [('vec_graph::Graph', 5), ('hash_graph::Graph', 41)]
+    try:
+        tot, bad, declined = zxsem.run_circuits(facts, plan, procs=16 if ck.tier == 'thorough' else 8)
+    except (minirust.NoEval, minirust.Proceed) as ex:
+        ck.ob3('E3-translate', 'evaluation', None, ck.site(TGO), 'the evaluator declined (%s: %s)' % (type(ex).__name__, ex))
+        return
+    by = {}
+    for ty, mode, circ, _a, what in bad:
+        by.setdefault(mode, []).append((ty, circ, what))
+    for mode in ['to_graph_with_options(simplify=%s, postselect=%s)' % m for m in zxsem.MODES]:
+        fs = by.get(mode, [])
+        for clause, pred in (('diagram-denotes-the-circuit', lambda w: not w.startswith('panics')), ('no-panic', lambda w: w.startswith('panics'))):
+            hit = [f for f in fs if pred(f[2])]
+            if hit:
+                ty, circ, what = hit[0]
+                ck.ob('E3-translate', '%s/%s' % (mode, clause), False, ck.site(TGO), 'for the circuit on %s (%s): %s [%d such cases in this run]' % (circ, ty.split('::')[0], what, len(hit)))
+            else:
+                ck.ob('E3-translate', '%s/%s' % (mode, clause), True, ck.site(TGO), '', sample={'mode': mode, 'circuits': tot['circuits']} if clause.startswith('diagram') else None)
+    ck.floor('E3-translate', tot['translations'], 6000 if ck.tier == 'thorough' else 1100)
+    if tot['declined'] * 20 > max(1, tot['translations']):
+        k0 = sorted(declined)[0]
+        ck.ob3('E3-translate', 'declined', None, ck.site(TGO), 'the evaluator declined %d translations, e.g. %s on %s' % (tot['declined'], k0, declined[k0]))
+    _c1, _c2 = zxsem.oracle_controls()
+    ck.control('E3-translate oracle: the fast contraction agrees with the reference contraction on a fixed sample of every family', _c1)
+    ck.control('E3-translate oracle: accepts a true identity and tells apart a wrong phase, a flipped edge type, a negated scalar and a dropped variable', _c2)
+    ck.note('E3-translate: %d circuits, %d translations decided, %d declined' % (tot['circuits'], tot['translations'], tot['declined']))
+
+
 def _run_own(ck):
     facts = ck.facts
     ck.decided('D1 per-gate table of Gate::add_to_graph: spider colours, connecting edge, phase constant and sqrt2 power reduce to the same semantic descriptor as the reference gate semantics AND as the independent tensor-side table of Circuit::to_tensor',
@@ -200,6 +235,7 @@ def _run_own(ck):
                'D3 compound gates go through push_basic_gates (C15 checks the expansion) or the post-selected gadget, whose edges obey the insertion discipline and whose scalar is omega*2^2',
                'D4 with simplify=true only checked rules are applied (local_ap_simp calls no *_unchecked rule)')
     ck.not_decided('equality of the resulting linear map for arbitrary gate sequences (composition is run-time state)', 'the effect of local_ap_simp beyond "applies only sound rules"', 'the CCZ gadget identity')
+    _d0(ck, facts)
     ck.fn(ATG)
     r = gatesem.graph_table(facts)
     if r is None:
@@ -318,7 +354,7 @@ def _run_own(ck):
     ck.fn(gk)
     rs = redge.raw_sites(facts, [gk])
     for i, (key, c, just, detail) in enumerate(rs):
-        ck.ob('R-EDGE', '%s/edge-%d' % (gk, i), just is not None, ck.site(key, c), 'gadget edge `%s` is a raw insertion between two pre-existing vertices' % hir.pp(c)[:60])
+        ck.ob3('R-EDGE', '%s/edge-%d' % (gk, i), redge.verdict(just, detail), ck.site(key, c), 'gadget edge `%s` is a raw insertion between two pre-existing vertices' % hir.pp(c)[:60])
     ck.floor('R-EDGE', len(rs), 8)
     sc = [c for c in hir.calls(facts['fns'][gk]['hir']) if hir.callee(c) == 'scalar::Scalar4::new']
     ok = False
